@@ -199,7 +199,7 @@ theorem cont_step (cfg : Cfg) (hc : RoundCfg cfg) (ok : Bytes → Bool) (h : UIn
 /-- the remaining fragments of a unit whose earlier fragments all arrived: the unit is handed on
     iff every remaining fragment arrives too; otherwise nothing, and the state is stale -/
 theorem rest_tracking (cfg : Cfg) (hc : RoundCfg cfg) (hn : cfg.fuaNeedsStart = true) (ok : Bytes → Bool) (h : UInt8)
-    (hh : h < 0x80) (hfil : (h &&& 0x1f) ≠ 12) (ts : UInt32) (m : Bool) :
+    (hfil : (h &&& 0x1f) ≠ 12) (ts : UInt32) (m : Bool) :
     ∀ (ds : List Bytes) (s : UInt16) (st : VSt) (l : Pkt) (R : Nat) (sa : List Pkt),
       ds ≠ [] → (∀ d ∈ ds, d ≠ []) → st.ready = true → st.frags.getLast? = some l → l.seq = s - 1 →
       ds.length ≤ R → R ≤ 65536 →
@@ -232,7 +232,7 @@ theorem rest_tracking (cfg : Cfg) (hc : RoundCfg cfg) (hn : cfg.fuaNeedsStart = 
         simpa using this
       · simp only [List.sublist_nil] at hsub'
         subst hsub'; subst hr'
-        obtain ⟨st', hrun, hk, hf⟩ := fua_rest cfg hc ok h hh hfil ts m [d] s st l (by simp) hne hr hlast hseq
+        obtain ⟨st', hrun, hk, hf⟩ := fua_rest cfg hc ok h hfil ts m [d] s st l (by simp) hne hr hlast hseq
         simp only [fuaPayloads, mkPkts] at hrun
         refine ⟨st', ?_, hk, Stale.of_nil hf _ _⟩
         rw [hrun]; simp
@@ -296,7 +296,7 @@ theorem start_step (cfg : Cfg) (hc : RoundCfg cfg) (ok : Bytes → Bool) (h : UI
 
 /-- one item under loss: its units are handed on iff all its packets arrive -/
 theorem item_loss (cfg : Cfg) (hc : RoundCfg cfg) (hn : cfg.fuaNeedsStart = true) (ok : Bytes → Bool) (st : VSt) (s : UInt16)
-    (it : Item) (R : Nat) (sa : List Pkt) (hr : st.ready = true) (hl : legal264 it = true) (hf : itemNoFiller it = true)
+    (it : Item) (R : Nat) (sa : List Pkt) (hr : st.ready = true) (hl : legal264F it = true) (hf : itemNoFiller it = true)
     (hst : Stale st s R) (hlen : (payloads264 it).length ≤ R) (hR64 : R ≤ 65536)
     (hsub : sa.Sublist (mkPkts it.ts it.marker s (payloads264 it))) :
     ∃ st', vRun cfg ok .h264 st sa
@@ -320,14 +320,14 @@ theorem item_loss (cfg : Cfg) (hc : RoundCfg cfg) (hn : cfg.fuaNeedsStart = true
       simp [vRun]
   cases it with
   | single ts m nal =>
-    simp only [legal264] at hl
+    simp only [legal264F] at hl
     simp only [itemNoFiller, Item.nals, List.all_cons, List.all_nil, Bool.and_true] at hf
     have hlen' : 1 ≤ R := by simpa [payloads264] using hlen
     exact one ts nal m [(ts, nal)] (by
       obtain ⟨st', hs, hk, hfr⟩ := single_step cfg hc ok st s ts m nal hr hl hf
       exact ⟨st', by simpa [vStep] using hs, hk, hfr⟩) hlen' sa hsub
   | agg ts m ns =>
-    simp only [legal264, Bool.and_eq_true, Bool.not_eq_true', List.all_eq_true, decide_eq_true_eq] at hl
+    simp only [legal264F, Bool.and_eq_true, Bool.not_eq_true', List.all_eq_true, decide_eq_true_eq] at hl
     simp only [itemNoFiller, Item.nals, List.all_eq_true] at hf
     obtain ⟨hne, hall⟩ := hl
     have hne' : ns ≠ [] := by
@@ -339,12 +339,11 @@ theorem item_loss (cfg : Cfg) (hc : RoundCfg cfg) (hn : cfg.fuaNeedsStart = true
     exact this
   | frag ts m nal cuts =>
     simp only [itemNoFiller, Item.nals, List.all_cons, List.all_nil, Bool.and_true] at hf
-    simp only [legal264, Bool.and_eq_true] at hl
+    simp only [legal264F, Bool.and_eq_true] at hl
     obtain ⟨hok, hcut⟩ := hl
     cases nal with
-    | nil => simp [nalOk264] at hok
+    | nil => simp [nalOk264F] at hok
     | cons h data =>
-      have hh := (nalOk_type hok).1
       have hf12 : (h &&& 0x1f) ≠ 12 := by simpa [notFiller] using hf
       simp only [cutsOk, Bool.and_eq_true, Bool.not_eq_true', List.all_eq_true, decide_eq_true_eq,
         List.length_cons, Nat.add_sub_cancel] at hcut
@@ -404,7 +403,7 @@ theorem item_loss (cfg : Cfg) (hc : RoundCfg cfg) (hn : cfg.fuaNeedsStart = true
         · subst hr'
           have hstep := start_step cfg hc ok h (List.take c data) hd0 st s ts
           simp only at hstep
-          obtain ⟨st', hrun, hk, hs'⟩ := rest_tracking cfg hc hn ok h hh hf12 ts m (d1 :: ds) (s + 1)
+          obtain ⟨st', hrun, hk, hs'⟩ := rest_tracking cfg hc hn ok h hf12 ts m (d1 :: ds) (s + 1)
             { st with frags := [⟨s, ts, false, ((h &&& 0xe0) ||| 28) :: (fuFlags true false ||| (h &&& 0x1f)) :: List.take c data⟩] }
             ⟨s, ts, false, ((h &&& 0xe0) ||| 28) :: (fuFlags true false ||| (h &&& 0x1f)) :: List.take c data⟩ (R - 1) r
             (by simp) hne' hr (by simp) (by simp) (by omega) (by omega) hsub'
@@ -453,7 +452,7 @@ theorem sublist_decompose (pl : Item → List Bytes) :
 
 theorem h264_loss (cfg : Cfg) (hc : RoundCfg cfg) (hn : cfg.fuaNeedsStart = true) (ok : Bytes → Bool) :
     ∀ (items : List Item) (s : UInt16) (st : VSt) (R : Nat) (arrs : List (List Pkt)),
-      (∀ it ∈ items, legal264 it = true ∧ itemNoFiller it = true) → st.ready = true → Stale st s R →
+      (∀ it ∈ items, legal264F it = true ∧ itemNoFiller it = true) → st.ready = true → Stale st s R →
       totalPkts payloads264 items ≤ R → R ≤ 65536 → Lossy payloads264 s items arrs →
       ∃ st', vRun cfg ok .h264 st arrs.flatten
           = (st', (survivors payloads264 s items arrs).map (frameOf st.base), .ok) ∧ Keeps st st' := by
